@@ -38,3 +38,5 @@ pub mod topics;
 pub mod users;
 pub mod utils;
 pub mod validatable;
+#[cfg(iggy_verif)]
+pub mod verif;
